@@ -9,12 +9,14 @@
        C01_number_roundtrip, C01_number_u32_bound);
      - quantities `{ = value % unit }` in every spelling (C01_value_roundtrip);
      - components: ingredient, cookware, timer; braces / blank braces / single word; alias; note
-       (C01_component_roundtrip_partial: modifier characters and `&(..)` data are not covered);
+       with modifier characters and `&(..)` data (C01_component_roundtrip);
      - steps: text pieces and components, wrapped and commented (C01_step_roundtrip);
-     - blocks: metadata line, section line, step block through parse_block and the end-of-block
-       check (C01_block_roundtrip_partial: `>` text blocks not covered);
-     - documents: the whole event stream, given that the block splitter cuts at the printed
-       blocks (C01_events_roundtrip_partial, via C14_full_blocks).
+     - blocks: metadata line, section line, step block, `>` text block through parse_block and the end-of-block
+       check (C01_block_roundtrip);
+     - the block cut: a token stream laid out as blocks separated by empty lines is cut by the
+       splitter at exactly those blocks (C01_block_cut);
+     - documents: the whole event stream of a text without front matter laid out as printed
+       blocks (C01_events_roundtrip_partial, via C14_full_blocks and C01_block_cut).
    C01_full_statement (documents printed with separators, no splitting hypothesis) is stated,
    not proved.  The recipe level (analysis pass) is monitored on the implementation by
    checks/c01.py on every run.
@@ -120,16 +122,17 @@ Print Assumptions C01_value_roundtrip.
 
 (* ------------------------------------------------------------------ (d) components *)
 
-(* Every component form without modifier characters: ingredient `@`, cookware `#` (quantity without
-   unit), timer `~` (with or without name, quantity with unit); name of any tokens without
-   `{ @ # ~`; alias `name|alias` (COMPONENT_ALIAS on; with it off the bar stays in the name);
-   body `{quantity}`, `{ }` or nothing (single-word name followed by a non-word token, no `{`
-   before the next marker); note `(...)`.  The parser function selected by the marker, run on the
-   tokens of `print_comp c ++ k` inside any block state, returns the denoted component, leaves
-   exactly k, and emits no diagnostic.
-   Partial: modifier characters (`@ & ? + -` after the marker) and intermediate-reference data
-   `&(~1)` are not covered by comp_wf (compared and monitored only). *)
-Theorem C01_component_roundtrip_partial :
+(* Every component form: ingredient `@`, cookware `#` (quantity without unit), timer `~` (with or
+   without name, quantity with unit); modifier characters `@ & ? + -` after the marker in any order
+   (COMPONENT_MODIFIERS; no `@` on cookware, none on timers), `&` with the data of an
+   intermediate-preparation reference `&(~1)`, `&(2)`, `&(=2)`, `&(=~1)`, blanks allowed inside
+   (INTERMEDIATE_PREPARATIONS, ingredients); name of any tokens without `{ @ # ~`; alias
+   `name|alias` (COMPONENT_ALIAS on; with it off the bar stays in the name); body `{quantity}`,
+   `{ }` or nothing (single-word name followed by a non-word token, no `{` before the next
+   marker); note `(...)`.  The parser function selected by the marker, run on the tokens of
+   `print_comp c ++ k` inside any block state, returns the denoted component (modifier bits and
+   reference data included), leaves exactly k, and emits no diagnostic. *)
+Theorem C01_component_roundtrip :
   forall (U : N -> ucls) (cfg : pcfg) (c : cspec) (k : list ptok) (off : N) (al dn : list tok) (ev : list pevent),
     adjacent_ok U (print_comp c ++ k) = true -> comp_wf cfg c = true -> comp_follow c k = true ->
     exists ts pe,
@@ -143,7 +146,7 @@ Proof.
   destruct (comp_print cfg c k off al dn ev W F) as (pe & H & P).
   exists (place off (print_comp c ++ k)), pe. split; [apply lex_unlex; exact Hadj|]. split; [exact H|exact P].
 Qed.
-Print Assumptions C01_component_roundtrip_partial.
+Print Assumptions C01_component_roundtrip.
 
 (* ------------------------------------------------------------------ (e) steps *)
 
@@ -170,10 +173,10 @@ Print Assumptions C01_step_roundtrip.
 
 (* ------------------------------------------------------------------ (f) blocks, documents *)
 
-(* A metadata line `>> key: value`, a section line `=.. name =..` and a step block, each run
-   through parse_block and the end-of-block check of the pull parser (run_block), yield exactly
-   their intended events.  Partial: `>` text blocks are not in the block language yet. *)
-Theorem C01_block_roundtrip_partial :
+(* A metadata line `>> key: value`, a section line `=.. name =..`, a step block and a `>` text
+   block (one or more lines, continued with or without `>`), each run through parse_block and the
+   end-of-block check of the pull parser (run_block), yield exactly their intended events. *)
+Theorem C01_block_roundtrip :
   forall (U : N -> ucls) (cfg : pcfg) (b : block) (off : N) (evs : list pevent),
     adjacent_ok U (print_block b) = true -> block_ok cfg b = true -> sec_trail_ok b ->
     exists blk evs',
@@ -187,22 +190,34 @@ Proof.
   destruct (block_print cfg Hst b off evs W Hs) as (evs' & H & P).
   exists (place off (print_block b)), evs'. split; [apply lex_unlex; exact Hadj|]. split; [exact H|exact P].
 Qed.
-Print Assumptions C01_block_roundtrip_partial.
+Print Assumptions C01_block_roundtrip.
 
-(* Document level, on the pull parser, through the block-splitter characterisation
-   C14_full_blocks (events = parse_block folded over [blocks]): when the splitter cuts the text
-   at the printed blocks (a decidable condition on the text, see the example), the event stream,
-   spans erased, is the concatenation of the intended events of the blocks - no diagnostics.
-   Partial: that the splitter cuts printed documents at their blocks (blank or comment-only lines
-   between step blocks, single newlines around `>>` and `=` lines) is a hypothesis here. *)
+(* The block cut.  [doc_toks ts bs] describes the layout of a token stream declaratively: leading
+   empty (blank or comment-only) lines; then either a `>>`/`=` line, which is a block by itself and
+   needs no empty line around it, or a multi-line block (step, text: lines that are not empty and
+   do not start with `>>` or `=`) that ends at an empty line, at a `>>`/`=` line or at the end of
+   the text; and so on.  For such a stream the splitter of the pull parser (next_block iterated)
+   returns exactly the blocks bs: wrapped steps stay one block, separator lines belong to no block. *)
+Theorem C01_block_cut :
+  forall (ts : list tok) (bs : list (list tok)), doc_toks ts bs -> MetaIterProofs.blocks ts = bs.
+Proof. intros ts bs H. unfold MetaIterProofs.blocks. apply blocks_doc; [exact H|lia]. Qed.
+Print Assumptions C01_block_cut.
+
+(* Document level, on the pull parser (through C14_full_blocks: events = parse_block folded over
+   the blocks): a text without front matter whose tokens are laid out as the printed blocks of d
+   yields, spans erased, exactly the intended events of d in order - no diagnostics.
+   Partial: the layout is a predicate on the lexed tokens (doc_toks + prints), not yet derived from a
+   document printer with a decidable side condition, and `parse_frontmatter = None` (no two
+   `---` lines with only blanks before the first) is a hypothesis: a comment-only line `---` is a
+   legal separator spelling, so it cannot be dropped, only made a condition of the printer. *)
 Theorem C01_events_roundtrip_partial :
-  forall (U : N -> ucls) (cfg : pcfg) (text : str) (d : list block) (ts : list tok),
+  forall (U : N -> ucls) (cfg : pcfg) (text : str) (d : list block) (ts : list tok) (bl : list (list tok)),
     p_strict_escape cfg = false ->
     parse_frontmatter cfg text = None -> lex_at U text 0 = Some ts ->
-    Forall2 prints (MetaIterProofs.blocks ts) d ->
+    doc_toks ts bl -> Forall2 prints bl d ->
     Forall (fun b => block_ok cfg b = true /\ sec_trail_ok b) d ->
     exists evs, events U cfg text = Done evs /\ map ev_proj evs = concat (map denote_block d).
-Proof. intros U cfg text d ts Hs. exact (events_print cfg Hs U text d ts). Qed.
+Proof. intros U cfg text d ts bl Hs. exact (events_layout cfg Hs U text d ts bl). Qed.
 Print Assumptions C01_events_roundtrip_partial.
 
 (* the full statement: the splitting hypothesis replaced by the printer of documents *)
@@ -291,13 +306,13 @@ Example C01_value_hypotheses_satisfiable :
 Proof. vm_compute. reflexivity. Qed.
 
 Definition wd (s : str) : ptok := (KWord, s).
-Definition c_igr : cspec := {| cs_kind := CIgr; cs_name := [wd [97]; sp; wd [98]]; cs_alias := Some [wd [99]];
+Definition c_igr : cspec := {| cs_kind := CIgr; cs_mods := [MC KQuestion; MRef {| is_rel := true; is_sec := false; is_val := [49]; is_b1 := []; is_b2 := []; is_b3 := [sp]; is_b4 := [] |}; MC KMinus]; cs_name := [wd [97]; sp; wd [98]]; cs_alias := Some [wd [99]];
                                cs_body := BQty q1 tape1; cs_note := Some [wd [100]] |}.
-Definition c_word : cspec := {| cs_kind := CIgr; cs_name := [wd [115; 97; 108; 116]]; cs_alias := None;
+Definition c_word : cspec := {| cs_kind := CIgr; cs_mods := []; cs_name := [wd [115; 97; 108; 116]]; cs_alias := None;
                                 cs_body := BWord; cs_note := None |}.
-Definition c_cw : cspec := {| cs_kind := CCw; cs_name := [wd [112; 111; 116]]; cs_alias := None;
+Definition c_cw : cspec := {| cs_kind := CCw; cs_mods := []; cs_name := [wd [112; 111; 116]]; cs_alias := None;
                               cs_body := BEmpty [sp]; cs_note := None |}.
-Definition c_tm : cspec := {| cs_kind := CTm; cs_name := []; cs_alias := None;
+Definition c_tm : cspec := {| cs_kind := CTm; cs_mods := []; cs_name := []; cs_alias := None;
                               cs_body := BQty {| qs_val := QNum (SInt [53]); qs_lock := false; qs_unit := Some [wd [109; 105; 110]] |} tape1;
                               cs_note := None |}.
 Definition step1 : list item := [IText [wd [65; 100; 100]; sp]; IComp c_igr; IText [sp; wd [116; 111]; (KNewline, [10]); wd [97]; sp];
@@ -317,7 +332,7 @@ Definition nl : ptok := (KNewline, [10]).
 Definition doc1_toks : list ptok :=
   print_block (BkMeta [sp; wd [107]] [sp; wd [118]]) ++ nl :: print_block (BkSection 0 [sp; wd [65]] 0 []) ++ nl ::
   print_block (BkStep step1) ++ nl :: (KLineComment, [45; 45; 120]) :: nl :: print_block (BkStep [IText [wd [66]]]).
-Example C01_events_hypotheses_satisfiable :
+Example C01_blocks_example :
   adjacent_ok Ug doc1_toks = true /\
   parse_frontmatter cfg_all (unlex doc1_toks) = None /\
   Forall2 prints (MetaIterProofs.blocks (place 0 doc1_toks)) doc1 /\
@@ -328,8 +343,21 @@ Proof.
               = [place 0 (print_block (BkMeta [sp; wd [107]] [sp; wd [118]]));
                  place 8 (print_block (BkSection 0 [sp; wd [65]] 0 []));
                  place 12 (print_block (BkStep step1));
-                 place 90 (print_block (BkStep [IText [wd [66]]]))]) by (vm_compute; reflexivity).
+                 place 98 (print_block (BkStep [IText [wd [66]]]))]) by (vm_compute; reflexivity).
   rewrite E. repeat constructor; eexists; reflexivity.
+Qed.
+
+(* the layout hypothesis is satisfiable: `>> k: v`, newline, a one-line step, newline *)
+Definition doc2_toks : list ptok := print_block (BkMeta [sp; wd [107]] [sp; wd [118]]) ++ nl :: [wd [66]] ++ [nl].
+Example C01_layout_satisfiable :
+  doc_toks (place 0 doc2_toks) [place 0 (print_block (BkMeta [sp; wd [107]] [sp; wd [118]])); place 8 [wd [66]]].
+Proof.
+  apply (dt_single [] (place 0 (print_block (BkMeta [sp; wd [107]] [sp; wd [118]])))
+                   {| kind := KNewline; tstr := [10]; tstart := 7 |} (place 8 ([wd [66]] ++ [nl])));
+    try (vm_compute; reflexivity); try (split; vm_compute; reflexivity); try (repeat constructor; fail).
+  apply (dt_multi [] (place 8 [wd [66]]) {| kind := KNewline; tstr := [10]; tstart := 9 |}
+                  (place 8 [wd [66]]) {| kind := KNewline; tstr := [10]; tstart := 9 |} [] [] [] []);
+    try (vm_compute; reflexivity); try (split; vm_compute; reflexivity); try (repeat constructor; fail).
 Qed.
 
 Example C01_number_hypotheses_satisfiable :
